@@ -117,6 +117,17 @@ func c18Eval(w *Worker, c *GCase) {
 	w.Distinct(key)
 	v := res.V
 	tab := v.GTable
+	// the listing comes from a `debug` run, the parser from a `generate` run: both must build the same tables
+	if plain := ygo.Build(text, ygo.Options{Fuel: buildFuel}); plain.OK() {
+		if fmt.Sprint(plain.V.GTable) != fmt.Sprint(tab) || fmt.Sprint(plain.V.ActionTable, plain.V.OffsetTable, plain.V.CheckTable, plain.V.ActionDef, plain.V.GoToDef) != fmt.Sprint(v.ActionTable, v.OffsetTable, v.CheckTable, v.ActionDef, v.GoToDef) {
+			w.Violate("C18|debug-run-builds-other-tables|"+key, fmt.Sprintf("grammar [%s]: the tables built by the debug run differ from the tables built without the debug flag, so the listing does not describe the generated parser", key), c,
+				map[string]interface{}{"grammar_text": text, "debug_table": tab, "generate_table": plain.V.GTable})
+			return
+		}
+	} else {
+		w.Violate("C18|debug-run-verdict-differs|"+key, fmt.Sprintf("grammar [%s]: the debug run succeeds but the same grammar without the debug flag gives %s", key, plain.Diag()), c, nil)
+		return
+	}
 	bad := func(kind, msg string) {
 		w.Violate("C18|"+kind+"|"+key, fmt.Sprintf("%s: grammar [%s]: %s", kind, key, msg), c, map[string]interface{}{"grammar_text": text, "what": msg})
 	}
